@@ -1238,7 +1238,16 @@ XalanTransformer::reset()
 
 XalanTransformer::EnsureReset::~EnsureReset()
 {
-    m_transformer.m_stylesheetExecutionContext->reset();
+    // Resetting the execution context for the next use allocates
+    // memory.  A failure to do so must not leave this destructor,
+    // which also runs while a transformation's exception unwinds.
+    try
+    {
+        m_transformer.m_stylesheetExecutionContext->reset();
+    }
+    catch(...)
+    {
+    }
 
     m_transformer.reset();
 }
